@@ -171,14 +171,17 @@ def _ranges(ctx):
                       'site orientation is bounded by [%s, %s], expected [0, 2*pi/rot]' % (n.canon_value(d['angle'][1]), n.canon_value(d['angle'][2])))
         # rot_symmetry passed by the generate_basis impls
         nrot = 0
-        for im in ctx.cg.impls_of('traits::State', 'generate_basis'):
+        units = []
+        for im0 in ctx.cg.impls_of('traits::State', 'generate_basis'):
+            units += [im0] + list(f.closures_of(im0))     # the call may sit in a closure handed to flat_map / map
+        for im in units:
             tr = Tracer(im)
             for bi, tt in im.calls():
                 if call_matches(tt, 'OccupiedSite::get_basis'):
                     nrot += 1
                     o = tr.origin(tt['args'][1])
                     v = const_value(o['c']) if o['o'] == 'const' else None
-                    rep.check(v == 1, 'R3', 'rot_symmetry=1:%s' % f.norm(im.impl_self_adt), where(im, bi), 'get_basis(1): orientation in [0, 2*pi]',
+                    rep.check(v == 1, 'R3', 'rot_symmetry=1:%s' % f.norm(im.impl_self_adt or im.path.split('>::')[0].split(' as ')[0].lstrip('<')), where(im, bi), 'get_basis(1): orientation in [0, 2*pi]',
                               'generate_basis passes rot_symmetry=%s: the orientation range is not [0, 2*pi]' % v)
         rep.floor('R3', 'get_basis call sites', nrot, 2)
 
